@@ -403,8 +403,11 @@ int filter_fix_linedirs (struct filter *chain)
 			last_was_blank = false;
 		}
 
-		/* squeeze blank lines from generated code */
-		else if (in_gen && is_blank_line(buf)) {
+		/* squeeze blank lines from generated code; without #line
+		 * directives (-L) nothing tells generated code from the
+		 * user's, which must be left as it is
+		 */
+		else if (in_gen && ctrl.gen_line_dirs && is_blank_line(buf)) {
 			if (last_was_blank)
 				continue;
 			else
